@@ -47,12 +47,25 @@ func (cs *ChainService) VerifVerifyBlock(b *types.Block) error { return cs.verif
 // wrappers for crash-point enumeration). Must be called right after the node is opened.
 func (cs *ChainService) VerifSetChainStore(s db.DB) { cs.cdb.store = s }
 
+// VerifDrainVerifier waits for a signature verification that is still in flight (its block was
+// dropped before the result was consumed) so that the workers can be stopped without racing
+// with them. Only used when a simulated node is shut down.
+func (cs *ChainService) VerifDrainVerifier() {
+	if cs.validator.isNeedWait {
+		cs.validator.signVerifier.WaitDone()
+		cs.validator.isNeedWait = false
+	}
+}
+
 // VerifStop stops the workers and closes the databases.
 func (cs *ChainService) VerifStop() {
 	defer func() { recover() }()
+	cs.VerifDrainVerifier()
 	cs.chainManager.Stop()
 	cs.chainWorker.Stop()
-	cs.validator.Stop()
+	// the signature-verifier workers are deliberately left parked (not Stop()ped): closing
+	// their channels while a verification of a dropped block is still in flight would crash
+	// the test process and hide the semantic outcome of the case
 	cs.Close()
 }
 
